@@ -62,4 +62,77 @@ theorem dropMany_inv (p q : PS) (hp : Inv p) (hs : List Nat) (hen : runL p (hs.m
   rw [← has]
   exact run_inv p _ hp
 
+/-! ### The `batch` stimulus (several application calls back to back, then the task runs)
+
+`Mux.applyBatch` — what the driver executes for the harness's `batch` — folds the calls' `opStep` and
+then settles once; with every call enabled in the pair model this is the calls as actions followed
+by the task's actions. -/
+
+/-- The endpoint (and the events: no message reaches the sink before the task runs) after the calls alone. -/
+theorem runL_calls (p q : PS) (ops : List Mux.Op) (acts : List Act)
+    (hacts : ops.map actOf = acts.map some) (h : runL p acts = some q) :
+    q.a = (ops.foldl (fun (acc : EP × List Res × List Ev) op =>
+      ((opStep acc.1 op).1, acc.2.1 ++ [(opStep acc.1 op).2.1], acc.2.2 ++ (opStep acc.1 op).2.2)) (p.a, [], [])).1 ∧
+    q.ab = p.ab ∧
+    wiresOf (ops.foldl (fun (acc : EP × List Res × List Ev) op =>
+      ((opStep acc.1 op).1, acc.2.1 ++ [(opStep acc.1 op).2.1], acc.2.2 ++ (opStep acc.1 op).2.2)) (p.a, [], [])).2.2 = [] := by
+  suffices H : ∀ (ops : List Mux.Op) (acts : List Act) (p q : PS) (rs : List Res) (evs : List Ev),
+      ops.map actOf = acts.map some → runL p acts = some q → wiresOf evs = [] →
+      q.a = (ops.foldl (fun (acc : EP × List Res × List Ev) op =>
+        ((opStep acc.1 op).1, acc.2.1 ++ [(opStep acc.1 op).2.1], acc.2.2 ++ (opStep acc.1 op).2.2)) (p.a, rs, evs)).1 ∧
+      q.ab = p.ab ∧
+      wiresOf (ops.foldl (fun (acc : EP × List Res × List Ev) op =>
+        ((opStep acc.1 op).1, acc.2.1 ++ [(opStep acc.1 op).2.1], acc.2.2 ++ (opStep acc.1 op).2.2)) (p.a, rs, evs)).2.2 = [] from
+    H ops acts p q [] [] hacts h rfl
+  intro ops
+  induction ops with
+  | nil =>
+    intro acts p q rs evs hacts h hw
+    cases acts with
+    | nil => simp only [runL, Option.some.injEq] at h; subst h; exact ⟨rfl, rfl, hw⟩
+    | cons a rest => simp at hacts
+  | cons op rest ih =>
+    intro acts p q rs evs hacts h hw
+    cases acts with
+    | nil => simp at hacts
+    | cons a arest =>
+      simp only [List.map_cons, List.cons.injEq] at hacts
+      obtain ⟨ha, hrest⟩ := hacts
+      simp only [runL] at h
+      cases hs : stepL p a with
+      | none => rw [hs] at h; cases h
+      | some p1 =>
+        rw [hs] at h
+        simp only [Option.bind_some] at h
+        obtain ⟨hp1, hw1⟩ := stepL_of_op p p1 op a ha hs
+        have hp1a : p1.a = (opStep p.a op).1 := by rw [hp1]
+        have hp1ab : p1.ab = p.ab := by rw [hp1]
+        have := ih arest p1 q (rs ++ [(opStep p.a op).2.1]) (evs ++ (opStep p.a op).2.2) hrest h
+          (by rw [wiresOf_append, hw, hw1]; rfl)
+        simp only [List.foldl_cons]
+        rw [hp1a, hp1ab] at this
+        exact this
+
+/-- If every call of the batch is enabled in the pair model (`runL` of the corresponding actions
+    succeeds), the task is idle afterwards, the sink takes everything and the id script does not run
+    out, then the state after the `batch` stimulus is reached by a run of fine-grained actions. -/
+theorem batch_fine (p q : PS) (ops : List Mux.Op) (acts : List Act) (hacts : ops.map actOf = acts.map some)
+    (hen : runL p acts = some q) (hidle : Idle q.a) (hsr : q.a.sinkRoom = none) (hr : (settle q.a).1.rng ≠ []) :
+    ∃ tail, runL p (acts ++ tail) =
+      some { q with a := (applyBatch p.a ops).1, ab := p.ab ++ wiresOf (applyBatch p.a ops).2.2 } := by
+  obtain ⟨ha, hab, hw⟩ := runL_calls p q ops acts hacts hen
+  obtain ⟨tail, htail⟩ := settle_fine q hidle hsr hr
+  refine ⟨tail, ?_⟩
+  rw [runL_append, hen]
+  simp only [Option.bind_some, htail, applyBatch, ← ha, hab, wiresOf_append, hw, List.nil_append]
+
+/-- … hence the invariant holds after a `batch` stimulus applied to any state that satisfies it. -/
+theorem batch_inv (p q : PS) (hp : Inv p) (ops : List Mux.Op) (acts : List Act) (hacts : ops.map actOf = acts.map some)
+    (hen : runL p acts = some q) (hidle : Idle q.a) (hsr : q.a.sinkRoom = none) (hr : (settle q.a).1.rng ≠ []) :
+    Inv { q with a := (applyBatch p.a ops).1, ab := p.ab ++ wiresOf (applyBatch p.a ops).2.2 } := by
+  obtain ⟨tail, h⟩ := batch_fine p q ops acts hacts hen hidle hsr hr
+  have has := run_of_runL p _ _ h
+  rw [← has]
+  exact run_inv p _ hp
+
 end Penguin.Pair
